@@ -145,6 +145,24 @@ class LinWorldMixin:
                 if c == 1:
                     return ip.decide_cmp_const(st, op, Sym(atom, TY), -k)
                 return ip.decide_cmp_const(st, ip.FLIP[op], Sym(atom, TY), k)
+        # several unfixed atoms: peel off boundary values of one atom at a time (a == lo | a > lo); each
+        # refinement either decides the comparison or leaves one atom fewer at its boundary. Bounded.
+        pk = "peel:%s:%r:%r" % (op, a, b)
+        for _ in range(6):
+            n_peel = st.ext.get(pk, 0)
+            if n_peel >= 4:
+                break
+            st.ext[pk] = n_peel + 1
+            d = simplify(st.facts, add(x, y, -1))
+            r = decide(st.facts, op, d)
+            if r is not None:
+                return r
+            terms = d[0]
+            if len(terms) == 1:
+                return self.compare_hook(st, op, a, b)
+            atom = sorted(terms, key=lambda t: (atom_range(st.facts, t)[1] - atom_range(st.facts, t)[0], t))[0]
+            lo, _hi = atom_range(st.facts, atom)
+            ip.decide_cmp_const(st, "Le", Sym(atom, TY), lo)
         raise AnalysisError("relational comparison %s of %r and %r: not decided by the interval bounds of %s" % (op, a, b, sorted(terms)))
 
 
@@ -165,6 +183,11 @@ def ask(facts, op, lf):
             # split the atom at the value where c*atom + k changes sign
             z = -k if c == 1 else k
             raise NeedSplit(atom, z)
+    # several unfixed atoms: peel the lower boundary value off one of them (bounded by forall's depth)
+    atom = sorted(terms, key=lambda t: (atom_range(facts, t)[1] - atom_range(facts, t)[0], t))[0]
+    lo, hi = atom_range(facts, atom)
+    if lo < hi:
+        raise NeedSplit(atom, lo)
     raise AnalysisError("relational condition over %s cannot be decided by case split" % sorted(terms))
 
 
